@@ -110,7 +110,15 @@ def dds_hash(x: Any) -> PyHash:
         if isinstance(elt, float):
             return _algo_bytes(struct.pack("!d", elt))
         if isinstance(elt, int):
-            return _algo_bytes(struct.pack("!l", elt))
+            if -(2**31) <= elt < 2**31:
+                return _algo_bytes(struct.pack("!l", elt))
+            # Integers that do not fit the historical 4-byte encoding (timestamps in milliseconds for
+            # instance): shortest two's complement encoding behind a marker that is not valid UTF-8,
+            # so that it cannot coincide with the encoding of a string, a float or a small integer.
+            return _algo_bytes(
+                b"\xffint"
+                + elt.to_bytes(elt.bit_length() // 8 + 1, "big", signed=True)
+            )
         if isinstance(elt, CanonicalPath):
             return _algo_str(repr(elt))
         if isinstance(elt, list):
